@@ -37,13 +37,14 @@ def parse(out):
 
 def model_schedule(ev, n):
     """map observed events to model steps (see Model/C14.v)"""
-    sch, queued = [], set()
+    sch, queued, last = [], set(), {}
     for t, code in ev:
+        prev = last.get(t, 0)
+        last[t] = code
         if code == 10:
-            sch += [t]; queued.add(t)
+            sch += [t]                                  # took its process' table entry
         elif code == 1:
-            sch += [t] if t in queued else [t, t]
-            queued.discard(t)
+            sch += [t]                                  # obtained the flock
         elif code == 2:
             sch += [t]
         elif code == 3:
@@ -51,7 +52,7 @@ def model_schedule(ev, n):
         elif code == 4:
             sch += [t, t]
         elif code == 5:
-            sch += [t]
+            sch += [t, t, t] if prev == 2 else [t]     # a write error after the seek: fail, unflock, drop the table entry
     return sch + [n] * 7          # the late append
 
 
@@ -68,10 +69,15 @@ def main():
     for procs in ([0, 0], [0, 1]):
         for s in interleavings([4, 4]):                         # every interleaving of two appenders, in-process and cross-process
             cases.append((procs, s))
+    for procs in ([100, 0], [100, 1], [0, 100], [1, 100]):              # one appender whose write fails inside the critical section
+        for s in interleavings([3, 4] if procs[0] >= 100 else [4, 3]):
+            cases.append((procs, s))
     n2 = len(cases)
     three = [[0, 0, 0], [0, 0, 1], [0, 1, 0], [0, 1, 1], [0, 1, 2]]
     for _ in range(1500 if thorough else 60):
-        procs = rng.choice(three)
+        procs = list(rng.choice(three))
+        if rng.random() < 0.3:
+            procs[rng.randrange(3)] += 100
         s = [0] * 4 + [1] * 4 + [2] * 4
         rng.shuffle(s)
         cases.append((procs, s))
@@ -92,7 +98,7 @@ def main():
         for j, o in enumerate(ch):
             io[k + 8 * j] = o
     c.count(len(lines), "forced interleavings")
-    c.cov["exhaustive_parts"] = ["all 70 interleavings of 2 appenders at the 4 segments, in one process and across two processes (%d executions)" % n2]
+    c.cov["exhaustive_parts"] = ["all 70 interleavings of 2 appenders at the 4 segments, in one process and across two processes, and all 35 interleavings with one appender whose write fails inside the critical section x 4 placements (%d executions)" % n2]
 
     mlines, midx, traces = [], [], 0
     for k, ((procs, s), line, o) in enumerate(zip(cases, lines, io)):
@@ -124,6 +130,9 @@ def main():
             c.violation("append-clobber", "earlier records were modified: %s" % fb[:SZ * NINIT], rep)
         # ---- the observed trace must be a trace of the model with the same outcome
         sch = model_schedule(ev, n)
+        for t, (code, idx) in enumerate(rs[:n]):
+            if procs[t] >= 100 and code != 2:
+                c.violation("append-bad-payload-accepted", "an append whose payload cannot be serialised did not fail: %s" % (rs,), rep)
         mlines.append("1|%d %d|%s|%s|%s" % (SZ, SZ // 2, " ".join(map(str, procs + [0])), " ".join(["200"] * (SZ * NINIT)), " ".join(map(str, sch))))
         midx.append(k)
     if model and mlines:
@@ -154,7 +163,7 @@ def main():
                   "a case is non-trivial/distinct by its (process assignment, observed event trace)",
              extra={"race_stress": race_note},
              assumptions=["atomicity/exclusivity of flock(2), atomicity of one write(2) under it, lockFDMap accesses atomic under its mutex (race detector in the thorough tier), Go memory model",
-                          "a thread predicted to block in flock is given 15 ms to reach it before the next thread is released"])
+                          "a thread is known to hold its process' table entry from the flock.tabled schedule point; which queued thread obtains a freed flock is observed, not predicted"])
 
 
 if __name__ == "__main__":
